@@ -22,6 +22,7 @@ import (
 	"google.golang.org/protobuf/proto"
 	"google.golang.org/protobuf/reflect/protodesc"
 	"google.golang.org/protobuf/reflect/protoreflect"
+	"google.golang.org/protobuf/reflect/protoregistry"
 	"google.golang.org/protobuf/types/dynamicpb"
 
 	"verif/harness/corpus"
@@ -35,7 +36,79 @@ var (
 	thorough bool
 )
 
+// the case being judged: failures on gogo / golang-v1 messages that carry a scalar proto2 extension are
+// the recorded finding G10 and get a class suffix; such cases are also kept out of the model comparison
+var failCtx struct {
+	suffix string
+}
+
+// setCtx reports whether the case is outside the model's scope (a recorded extension finding applies)
+func setCtx(bv *builtVariant, md protoreflect.MessageDescriptor, b []byte) bool {
+	failCtx.suffix = ""
+	switch {
+	case hasExt(md, b, func(fd protoreflect.FieldDescriptor) bool { return fd.IsList() }):
+		failCtx.suffix = ":extrepeated" // G35: repeated extensions
+	case bv != nil && bv.V.Runtime() == "gogo" && hasExt(md, b, func(fd protoreflect.FieldDescriptor) bool { return fd.Kind() != protoreflect.MessageKind }):
+		failCtx.suffix = ":extscalar-v1" // G10: scalar extensions on the pointer-based runtimes
+	}
+	return failCtx.suffix != ""
+}
+
+// hasExt: the encoding holds, at any depth, a known extension field satisfying pred
+func hasExt(md protoreflect.MessageDescriptor, b []byte, pred func(protoreflect.FieldDescriptor) bool) bool {
+	for len(b) > 0 {
+		num, typ, n := protowire.ConsumeTag(b)
+		if n < 0 {
+			return false
+		}
+		fd := fieldByNumber(md, num)
+		if fd != nil && fd.IsExtension() && pred(fd) {
+			return true // (whatever follows the key, well-formed or not)
+		}
+		k := protowire.ConsumeFieldValue(num, typ, b[n:])
+		if k < 0 {
+			return false
+		}
+		if fd != nil {
+			if typ == protowire.BytesType && fd.Kind() == protoreflect.MessageKind {
+				val, _ := protowire.ConsumeBytes(b[n:])
+				sub := fd.Message()
+				if fd.IsMap() {
+					sub = nil
+					if fd.MapValue().Kind() == protoreflect.MessageKind {
+						// entry: look into value payloads
+						e := val
+						for len(e) > 0 {
+							n2, t2, c := protowire.ConsumeTag(e)
+							if c < 0 {
+								break
+							}
+							k2 := protowire.ConsumeFieldValue(n2, t2, e[c:])
+							if k2 < 0 {
+								break
+							}
+							if n2 == 2 && t2 == protowire.BytesType {
+								pv, _ := protowire.ConsumeBytes(e[c:])
+								if hasExt(fd.MapValue().Message(), pv, pred) {
+									return true
+								}
+							}
+							e = e[c+k2:]
+						}
+					}
+				}
+				if sub != nil && hasExt(sub, val, pred) {
+					return true
+				}
+			}
+		}
+		b = b[n+k:]
+	}
+	return false
+}
+
 func fail(what, cs, exp, got, class string) {
+	class += failCtx.suffix
 	sink.Fail(hx.Failure{Property: prop, Kind: "oracle", What: what, Case: cs, Expected: exp, Got: got, Class: class})
 }
 
@@ -47,6 +120,45 @@ type cfile struct {
 	Idx  map[string]int
 }
 
+// corpusTypes resolves the extensions declared in the corpus (for dynamicpb parsing of extension fields)
+var corpusFiles = new(protoregistry.Files)
+var corpusTypes = dynamicpb.NewTypes(corpusFiles)
+var corpusExts = map[protoreflect.FullName][]protoreflect.ExtensionDescriptor{}
+
+func collectExts(xs protoreflect.ExtensionDescriptors, ms protoreflect.MessageDescriptors) {
+	for i := 0; i < xs.Len(); i++ {
+		x := xs.Get(i)
+		corpusExts[x.ContainingMessage().FullName()] = append(corpusExts[x.ContainingMessage().FullName()], x)
+	}
+	for i := 0; i < ms.Len(); i++ {
+		collectExts(ms.Get(i).Extensions(), ms.Get(i).Messages())
+	}
+}
+
+// the fields the generated code knows for a message: declared fields + extensions of the corpus
+func allFields(md protoreflect.MessageDescriptor) []protoreflect.FieldDescriptor {
+	var out []protoreflect.FieldDescriptor
+	for i := 0; i < md.Fields().Len(); i++ {
+		out = append(out, md.Fields().Get(i))
+	}
+	var xs []protoreflect.FieldDescriptor
+	for _, xd := range corpusExts[md.FullName()] {
+		xs = append(xs, dynamicpb.NewExtensionType(xd).TypeDescriptor())
+	}
+	sort.Slice(xs, func(i, j int) bool { return xs[i].Number() < xs[j].Number() })
+	return append(out, xs...)
+}
+
+func fieldByNumber(md protoreflect.MessageDescriptor, num protoreflect.FieldNumber) protoreflect.FieldDescriptor {
+	if fd := md.Fields().ByNumber(num); fd != nil {
+		return fd
+	}
+	if xt, err := corpusTypes.FindExtensionByNumber(md.FullName(), num); err == nil {
+		return xt.TypeDescriptor()
+	}
+	return nil
+}
+
 func loadCorpus() []*cfile {
 	var out []*cfile
 	for _, f := range corpus.Matrix() {
@@ -54,6 +166,8 @@ func loadCorpus() []*cfile {
 		if err != nil {
 			hx.Must(fmt.Errorf("corpus file %s is not a valid descriptor: %v", f.Base, err))
 		}
+		hx.Must(corpusFiles.RegisterFile(fd))
+		collectExts(fd.Extensions(), fd.Messages())
 		_, idx := f.Index()
 		out = append(out, &cfile{F: f, FD: fd, Term: f.SchemaTerm(), Idx: idx})
 	}
@@ -84,28 +198,61 @@ func (c *cfile) relName(md protoreflect.MessageDescriptor) string {
 // ---------------------------------------------------------------------------------------------
 // driver client: batch mode
 
-func runDriver(driver string, reqs []string) ([]string, error) {
+func runDriverOnce(driver string, reqs []string) ([]string, error, string) {
 	cmd := exec.Command("bash", "-c", "ulimit -v 12000000; exec "+driver)
 	cmd.Stdin = strings.NewReader(strings.Join(reqs, "\n") + "\n")
 	var so, se bytes.Buffer
 	cmd.Stdout, cmd.Stderr = &so, &se
 	err := cmd.Run()
-	lines := strings.Split(strings.TrimRight(so.String(), "\n"), "\n")
-	if so.Len() == 0 {
-		lines = nil
+	out := so.String()
+	if k := strings.LastIndexByte(out, '\n'); k >= 0 {
+		out = out[:k] // complete lines only
+	} else {
+		out = ""
 	}
-	if err != nil || len(lines) != len(reqs) {
-		// the driver died (fatal error, out of memory, ...): everything after the last answer is lost
-		tail := se.String()
-		if len(tail) > 1500 {
-			tail = tail[:1500]
-		}
-		for len(lines) < len(reqs) {
-			lines = append(lines, "driver-died")
-		}
-		return lines, fmt.Errorf("driver died after %d of %d requests: %v: %s", so.Len(), len(reqs), err, tail)
+	var lines []string
+	if out != "" {
+		lines = strings.Split(out, "\n")
 	}
-	return lines, nil
+	tail := se.String()
+	if len(tail) > 1500 {
+		tail = tail[:1500]
+	}
+	return lines, err, tail
+}
+
+// runDriver feeds the requests to a driver process.  The driver answers each request before reading the
+// next one, so when the process dies (fatal error, out of memory) the request without an answer is the
+// one that killed it: it is answered "driver-died", reported, and a new process takes the rest.
+func runDriver(driver string, reqs []string) ([]string, error) {
+	out := make([]string, 0, len(reqs))
+	var firstErr error
+	start := 0
+	for restarts := 0; start < len(reqs); restarts++ {
+		lines, err, tail := runDriverOnce(driver, reqs[start:])
+		if len(lines) > len(reqs)-start {
+			lines = lines[:len(reqs)-start]
+		}
+		out = append(out, lines...)
+		if len(out) == len(reqs) {
+			if err != nil && firstErr == nil {
+				firstErr = fmt.Errorf("driver exited with %v after answering everything: %s", err, tail)
+			}
+			break
+		}
+		killer := reqs[len(out)]
+		if firstErr == nil {
+			firstErr = fmt.Errorf("driver died on request %q (%v): %s", killer, err, tail)
+		}
+		out = append(out, "driver-died")
+		start = len(out)
+		if restarts >= 8 {
+			for len(out) < len(reqs) {
+				out = append(out, "driver-died")
+			}
+		}
+	}
+	return out, firstErr
 }
 
 // ---------------------------------------------------------------------------------------------
@@ -128,7 +275,7 @@ func canonBytes(md protoreflect.MessageDescriptor, b []byte) []byte {
 			return b
 		}
 		raw := p[:n+m]
-		fd := md.Fields().ByNumber(num)
+		fd := fieldByNumber(md, num)
 		if fd != nil && typ == protowire.BytesType && fd.Kind() == protoreflect.MessageKind {
 			val, _ := protowire.ConsumeBytes(p[n:])
 			sub := canonBytes(fd.Message(), val)
@@ -140,7 +287,7 @@ func canonBytes(md protoreflect.MessageDescriptor, b []byte) []byte {
 	// sort runs of the same map field
 	for i := 0; i < len(fs); {
 		j := i
-		fd := md.Fields().ByNumber(fs[i].num)
+		fd := fieldByNumber(md, fs[i].num)
 		for j < len(fs) && fs[j].num == fs[i].num {
 			j++
 		}
@@ -306,6 +453,7 @@ func streamMarshal(r *hx.Rng, cfs []*cfile, bs *builtSet) {
 			f := strings.Split(resps[i], " ")
 			cs := fmt.Sprintf("variant=%s type=%s value=%s wire=%s", bv.V.Name(), p.md.FullName(), p.text, hx.B(p.wire))
 			sink.OracleN++
+			outside := setCtx(bv, p.md, p.wire)
 			if len(f) != 4 {
 				fail("driver could not run the case", cs, "", resps[i], "driver-error")
 				continue
@@ -337,7 +485,7 @@ func streamMarshal(r *hx.Rng, cfs []*cfile, bs *builtSet) {
 			case "C05":
 				if m != "err" && m != "panic" {
 					ref := dynamicpb.NewMessage(p.md)
-					if err := (proto.UnmarshalOptions{AllowPartial: true}).Unmarshal(hx.UnB(m), ref); err != nil {
+					if err := (proto.UnmarshalOptions{AllowPartial: true, Resolver: corpusTypes}).Unmarshal(hx.UnB(m), ref); err != nil {
 						fail("the reference runtime cannot parse the generated Marshal output", cs, "parsable", err.Error(), "ref-reject")
 					} else if got := pbrender.Message(ref); got != p.text {
 						fail("reference parse of the generated Marshal output differs from the original message", cs, p.text, got, classify("ref-differs", p.md, p.wire))
@@ -363,7 +511,7 @@ func streamMarshal(r *hx.Rng, cfs []*cfile, bs *builtSet) {
 				for _, b := range inputs {
 					ref := dynamicpb.NewMessage(p.md)
 					res := "err"
-					if err := (proto.UnmarshalOptions{AllowPartial: true}).Unmarshal(b, ref); err == nil {
+					if err := (proto.UnmarshalOptions{AllowPartial: true, Resolver: corpusTypes}).Unmarshal(b, ref); err == nil {
 						res = "ok " + pbrender.Message(ref)
 					}
 					sink.Add("refdecode", fmt.Sprintf("G RD %s %d %s", p.c.Term, p.c.Idx[p.c.relName(p.md)], hx.B(b)), res, len(b) > 0)
@@ -375,6 +523,10 @@ func streamMarshal(r *hx.Rng, cfs []*cfile, bs *builtSet) {
 				impl = "panic"
 			} else if m == "err" {
 				impl = "err"
+			}
+			if outside {
+				sink.Count("outside-model" + failCtx.suffix)
+				continue
 			}
 			sink.Add("marshal:"+bv.V.Name(), fmt.Sprintf("G SM@%s %s %d %s", bv.V.Name(), p.c.Term, p.c.Idx[p.c.relName(p.md)], p.text), impl, len(p.wire) > 0)
 		}
